@@ -21,7 +21,7 @@ for d in sorted(glob.glob(os.path.join(ROOT, "seeded", "*", ""))):
 n = len(rows)
 det = sum(1 for v in reg.values() if v.startswith("DETECTED"))
 conc = sum(1 for v in reg.values() if "concrete" in v)
-head = ("%d confirmed changes (3 are the reverses of the fix: commits, %d come from independent sub-agents in eight batches; the "
+head = ("%d confirmed changes (3 are the reverses of the fix: commits, %d come from independent sub-agents in nine batches; the "
         "third and later batches were asked for changes that are hard to notice and told which earlier ideas were already known).  Each "
         "compiles and leaves the unedited suite at 101 passed (gen/confirm_mut.sh in a scratch worktree: patch only / patch+demo "
         "/ demo only).  Last full regression (gen/seeded_regress.sh, quick tier, default seed): %d of %d detected by the check of "
@@ -35,7 +35,7 @@ head = ("%d confirmed changes (3 are the reverses of the fix: commits, %d come f
         "was ever spelled like a cw20 address -> look-alike denom in the swap matrix); C08-agent4 was caught only by some seeds in "
         "the quick tier (limb-pattern operands were sampled) -> those operand pairs are now permanent; the fifth, sixth and seventh batches (7, 5 and 5 of 10 missed at first, several more reported without a concrete input) exposed what the driver could not yet SAY rather than what it "
         "did not try: look-alike strings across asset kinds, first provisions on behalf of others, route participants as recipients, non-normalised address spellings, the query entry "
-        "point above read_pairs, native decimals beyond 18, code ids and migration, unprovisioned funded pairs, hooks relayed by the wrong token, signs inside numerals, pools emptied to the locked unit and re-seeded, LP handed over between users, cw20s that are not laid out like cw20-base, cursors handed back in the other asset order (see each row); "
+        "point above read_pairs, native decimals beyond 18, code ids and migration, unprovisioned funded pairs, hooks relayed by the wrong token, signs inside numerals, pools emptied to the locked unit and re-seeded, LP handed over between users, cw20s that are not laid out like cw20-base, cursors handed back in the other asset order, callers without the tokens they deposit, routes funded with two coins, 128-byte denoms, minimums above 2^127, actors that are themselves contracts (see each row); "
         "C09-agent3 and "
         "C16-agent3 were anticipated from their descriptions before they could be run (no case-variant denoms anywhere; the "
         "factory lookup was only observed in the pair's own asset order) and the checks were extended first (function-level family "
